@@ -72,6 +72,12 @@ def cases(ctx):
         yield {'kind': 'cfg', 'X': gen.wide_cfg(rng)}
     for i in range(1 if not thorough else 4):      # more than 256 transitions
         yield {'kind': 'dfa', 'X': gen.wide_dfa(rng)}
+    for i in range(30 * K):       # state names that are keywords up to case, or that merely begin with a keyword
+        pool = rng.sample(['Final', 'Initial', 'States', 'Accept', 'Reject', 'Blank', 'Epsilon', 'final_q', 'initial_q', 'states2', 'statesman'], 5)
+        if i % 2:
+            yield {'kind': 'dfa', 'X': gen.random_dfa(rng, 5, names=lambda j: pool[j])}
+        else:
+            yield {'kind': 'nfa', 'X': gen.random_nfa(rng, 5, eps=rng.choice(['_', 'ε']), names=lambda j: pool[j])}
     for i in range(10 * K):       # 11-13 numbered states
         yield {'kind': 'dfa', 'X': gen.numbered_dfa(rng)}
 
